@@ -363,6 +363,13 @@ func (g *GenCtx) customDomain(d *Desc, v reflect.Value) {
 			c := v.FieldByName("Config")
 			c.Set(reflect.Zero(c.Type()))
 		}
+		// BinTree / HashmapAug cannot be written: every second value keeps these dictionaries empty so that it encodes
+		if g.class("mcBlockExtra.encodable", 2) == 0 {
+			for _, n := range []string{"ShardHashes", "ShardFees"} {
+				f := v.FieldByName(n)
+				f.Set(reflect.Zero(f.Type()))
+			}
+		}
 	}
 	if d.Name == "tlb.McStateExtraOther" {
 		// flags <= 1, block_create_stats present iff flags = 1
